@@ -30,9 +30,8 @@ def prepare(sc: Scratch) -> dict:
 
 
 def confirm(sc: Scratch, prep: dict, r: HarnessResult, log_dir: Path) -> dict:
-    role = f"{r.spec.name}: " + "; ".join(sorted({c["description"] for c in r.failed}))
-    return {"reproduced": None, "role": role, "detail": "native replay not wired yet"}
+    return session.confirm_session(PID, sc, prep, r, log_dir, "verif_c11")
 
 
 def replay(path: Path) -> int:
-    return 2
+    return session.replay_script(PID, path)
